@@ -102,15 +102,17 @@ Theorem C02_deep_folding_is_invisible :
   (forall k a a', R a a' -> R (unf C k a) (unf C k a')) ->
   forall (flagged : nat -> Prop),
   (forall k, flagged k -> forall a b c, R (binf C k (binf C k a b) c) (binf C k a (binf C k b c))) ->
-  forall (vals : list D) (okvars : list str -> Prop), (forall v, okvars v -> length v <= length vals) ->
-  forall e : deepex D, dwf flagged vals okvars e ->
-  exists e' v v', dcompile C e = Ok e' /\ dwf flagged vals okvars e' /\ R (dden C vals e') (dden C vals e) /\
+  forall (look : nat -> str -> D) (okvar : nat -> str -> Prop) (okvars : list str -> Prop) (vals : list D),
+  (forall v, okvars v -> length v <= length vals) ->
+  (forall i x, okvar i x -> i < length vals /\ look i x = nth i vals (dflt C)) ->
+  forall e : deepex D, dwf flagged okvar okvars e ->
+  exists e' v v', dcompile C e = Ok e' /\ dwf flagged okvar okvars e' /\ R (dden C look e') (dden C look e) /\
                   eval_deep_relaxed C e vals = Ok v /\ eval_deep_relaxed C e' vals = Ok v' /\ R v' v.
 Proof.
-  intros D C R Hr Hs Ht Hb Hu flagged Ha vals okvars Hok e Hwf.
-  destruct (dcompile_ok C R Hr Hs Ht Hb Hu flagged Ha vals okvars e Hwf) as (e' & Hc & Hwf' & HR).
-  destruct (eval_deep_is_dden C R Hr Hs Ht Hb Hu flagged Ha vals okvars Hok e Hwf) as (v & Ev & Rv).
-  destruct (eval_deep_is_dden C R Hr Hs Ht Hb Hu flagged Ha vals okvars Hok e' Hwf') as (v' & Ev' & Rv').
+  intros D C R Hr Hs Ht Hb Hu flagged Ha look okvar okvars vals Hok Hlook e Hwf.
+  destruct (dcompile_ok C R Hr Hs Ht Hb Hu flagged Ha look okvar okvars e Hwf) as (e' & Hc & Hwf' & HR).
+  destruct (eval_deep_is_dden C R Hr Hs Ht Hb Hu flagged Ha look okvar okvars vals Hok Hlook e Hwf) as (v & Ev & Rv).
+  destruct (eval_deep_is_dden C R Hr Hs Ht Hb Hu flagged Ha look okvar okvars vals Hok Hlook e' Hwf') as (v' & Ev' & Rv').
   exists e', v, v'. repeat split; try assumption.
   eapply Ht; [exact Rv'|]. eapply Ht; [exact HR|]. apply Hs. exact Rv.
 Qed.
